@@ -231,7 +231,15 @@ type spec struct {
 
 func shq(s string) string {
 	if s != "" && !strings.ContainsAny(s, " \t\n'\"\\$`!*?[]{}()<>|&;#~") {
-		return s
+		plain := true
+		for i := 0; i < len(s); i++ {
+			if s[i] < 0x21 || s[i] > 0x7e {
+				plain = false // control bytes, NUL, anything non-ASCII: single quotes keep every byte literal
+			}
+		}
+		if plain {
+			return s
+		}
 	}
 	return "'" + strings.ReplaceAll(s, "'", `'\''`) + "'"
 }
